@@ -11,12 +11,6 @@ Local Open Scope Z_scope.
 Lemma gen_isDominated_dominates a b : gen_isDominated a b = nd_dom b a.
 Proof. rewrite gen_isDominated_eq. apply is_dominated_nd_dom. Qed.
 
-Lemma gen_log_ranks_eq pop : gen_log_ranks pop = log_ranks pop.
-Proof. unfold gen_log_ranks, log_ranks. destruct pop; [reflexivity|]. cbv zeta. now rewrite gen_sortNDHelperA_eq. Qed.
-
-Lemma gen_sort_log_eq pop k ffo : gen_sort_log pop k ffo = sort_log pop k ffo.
-Proof. unfold gen_sort_log, sort_log. now rewrite gen_log_ranks_eq. Qed.
-
 Lemma gen_sweepA_correct fs front :
   ordered2 fs -> (forall f, In f fs -> (2 <= length f)%nat) -> (forall f, In f fs -> In f (kkeys front)) ->
   A_postR (dom_pref 1) fs front (gen_sweepA fs front).
@@ -42,29 +36,29 @@ Proof. rewrite gen_sortNDHelperB_eq. apply helperB_correct. Qed.
 Lemma gen_sort_log_correct pop k ffo :
   NoDup (map uid pop) -> same_len (map iw pop) -> pop <> [] ->
   (forall x, In x pop -> (2 <= length (iw x))%nat) ->
-  exists r, gen_sort_log pop k ffo = Some r /\ Forall2 (@Permutation ind) (log_fronts r) (spec_sort pop k ffo).
-Proof. rewrite gen_sort_log_eq. apply sort_log_correct. Qed.
+  exists r, gen_sortLogNondominated pop k ffo = Some r /\ Forall2 (@Permutation ind) (log_fronts r) (spec_sort pop k ffo).
+Proof. intros H1 H2 H3 H4. rewrite gen_sortLogNondominated_eq by assumption. now apply sort_log_correct. Qed.
 
 Lemma gen_sorts_agree pop k ffo :
   NoDup (map uid pop) -> same_len (map iw pop) -> pop <> [] ->
   (forall x, In x pop -> (2 <= length (iw x))%nat) ->
-  exists fs r, sort_nd pop k ffo = Some fs /\ gen_sort_log pop k ffo = Some r /\
+  exists fs r, sort_nd pop k ffo = Some fs /\ gen_sortLogNondominated pop k ffo = Some r /\
                Forall2 (@Permutation ind) (log_fronts r) fs.
-Proof. rewrite gen_sort_log_eq. apply sorts_agree. Qed.
+Proof. intros H1 H2 H3 H4. rewrite gen_sortLogNondominated_eq by assumption. now apply sorts_agree. Qed.
 
 Lemma gen_log_first_front_only pop k :
   NoDup (map uid pop) -> same_len (map iw pop) -> pop <> [] ->
   (forall x, In x pop -> (2 <= length (iw x))%nat) -> k <> 0 ->
-  exists F, gen_sort_log pop k true = Some (LFlat F) /\ NoDup (map uid F) /\
+  exists F, gen_sortLogNondominated pop k true = Some (LFlat F) /\ NoDup (map uid F) /\
             forall x, In x F <-> In x pop /\ forall y, In y pop -> idom y x = false.
-Proof. rewrite gen_sort_log_eq. apply log_first_front_only. Qed.
+Proof. intros H1 H2 H3 H4 H5. rewrite gen_sortLogNondominated_eq by assumption. now apply log_first_front_only. Qed.
 
 Lemma gen_log_leading_fronts pop k :
   NoDup (map uid pop) -> same_len (map iw pop) -> pop <> [] ->
   (forall x, In x pop -> (2 <= length (iw x))%nat) -> k <> 0 ->
-  exists fs j, gen_sort_log pop k false = Some (LFronts fs) /\
+  exists fs j, gen_sortLogNondominated pop k false = Some (LFronts fs) /\
     (j < length (spec_fronts pop))%nat /\
     Forall2 (@Permutation ind) fs (firstn (S j) (spec_fronts pop)) /\
     (forall j', (0 < j' <= j)%nat -> ztotal (firstn j' (spec_fronts pop)) < Z.min (zlen pop) k) /\
     Z.min (zlen pop) k <= ztotal fs.
-Proof. rewrite gen_sort_log_eq. apply log_leading_fronts. Qed.
+Proof. intros H1 H2 H3 H4 H5. rewrite gen_sortLogNondominated_eq by assumption. now apply log_leading_fronts. Qed.
